@@ -99,6 +99,18 @@ type BatchContext struct {
 	BuildDir  string
 	Stats     *Stats
 	ExtraInfo map[string]any
+	// Infra collects infrastructure trouble of the supplementary leg (exit 2, never a verdict).
+	Infra []string
+}
+
+// Poisonable is implemented by engines whose later runs in the same process
+// cannot be trusted after a violation (process-global state may be polluted).
+type Poisonable interface{ Poisoned() bool }
+
+// IsolatedEvaluator is implemented by engines whose minimisation candidates
+// must be evaluated in a fresh process.
+type IsolatedEvaluator interface {
+	EvalIsolated(prop string, tape []uint32) []Violation
 }
 
 var registry = map[string]*EngineInfo{}
